@@ -203,6 +203,16 @@ pub fn main_loop(f: impl Fn(&str, u32, usize, &[&str]) -> String) {
     out.flush().unwrap();
 }
 
+#[cfg(feature = "sweep")]
+include!("sweep8.rs");
+
+/// is (w, n) one of the configurations of `for_configs!` (gen/common.py CONFIGS_ALL mirrors the table)?
+pub fn is_standard_config(w: u32, n: usize) -> bool {
+    matches!((w, n), (8, 1) | (8, 2) | (8, 3) | (8, 4) | (8, 5) | (8, 8) | (8, 17) | (8, 33) | (8, 300)
+        | (16, 1) | (16, 2) | (16, 3) | (16, 6) | (32, 1) | (32, 2) | (32, 3) | (32, 10)
+        | (64, 1) | (64, 2) | (64, 3) | (64, 5) | (64, 17) | (64, 128))
+}
+
 /// Dispatch on (digit width, digit count): calls `$m!(U, I, Digit, N, args...)`.
 /// The standard configuration table (DESIGN 4.2).
 #[macro_export]
